@@ -39,7 +39,7 @@ def mk_seq(first, depth):
             ACK_RANDOM_FACTOR = 1
             MAX_RETRANSMIT = 1
 
-        def h(a0: bool, q0: int, c0: bool, a1: bool, q1: int, c1: bool, e1: int, e2: int, e3: int) -> None:
+        def h(a0: bool, q0: int, c0: bool, a1: bool, q1: int, c1: bool, e1: int, e2: int, e3: int, peer_mid: bool) -> None:
             assert 0 <= q0 <= 2 and 0 <= q1 <= 2 and (a0 or (q0 == 0 and not c0)) and (a1 or (q1 == 0 and not c1))
             assert 0 <= e1 < 2 * NK and 0 <= e2 < 2 * NK and 0 <= e3 < 2 * NK
             evs = ([first] if first is not None else []) + [e1, e2, e3]
@@ -128,6 +128,17 @@ def mk_seq(first, depth):
                         assert len(act) == (1 if outstanding[r] is not None else 0)
                     assert loop.exceptions == []
 
+                if peer_mid:
+                    # history: remote 0 earlier sent us requests that carry the message IDs our next messages are going to get
+                    # (the two directions number their messages independently)
+                    for k in range(3):
+                        pm = Message(code=GET, _mtype=NON, _mid=(mm.message_id + k) % 65536, _token=b"\x70", transport_tuning=TT())
+                        pm.remote = R[0]
+                        pm.direction = Direction.INCOMING
+                        mm.dispatch_message(pm)
+                    loop.run_ready()
+                    for hnd in list(loop.pending_timers()):
+                        hnd.cancel()
                 # pre-state through the real API
                 for r, (a, q, c) in enumerate(((a0, q0, c0), (a1, q1, c1))):
                     if a:
@@ -176,7 +187,8 @@ def obligations(tier):
         obs.append(Obligation(
             name="nstart-first%02d-depth%d" % (first, depth), make=mk_seq(first, depth),
             timeout=150 if tier == "quick" else 1500, functions=FUNCS,
-            symbolic={"pre-state per remote": "open? x retransmitted? x backlog 0..2", "events after the first": "index 0..13 each"},
+            symbolic={"pre-state per remote": "open? x retransmitted? x backlog 0..2", "events after the first": "index 0..13 each",
+                      "peer earlier used the same message IDs in its own requests": "bool"},
             concrete={"first event": first, "depth": depth, "MAX_RETRANSMIT": 1, "remotes": 2},
             stubs=["SimLoop", "RecTokenManager", "RecMessageInterface", "random stub"]))
     return obs
